@@ -2,7 +2,7 @@
    pauli_products_map comes from QPG.conjtab (regenerated from /repo). *)
 From Coq Require Import ZArith List Bool.
 From QP Require Import Cx Zw Apply Local Gates.
-From QPM Require Import Pauli Operator OperatorExt.
+From QPM Require Import Pauli CompBasis Operator OperatorExt Expect OperatorAdj SparseExport.
 From QPG Require Import conjtab.
 Import ListNotations.
 
@@ -103,3 +103,50 @@ Example c05_example :
   pprod pauli_products_map [(0%nat, PX); (2%nat, PZ)] [(2%nat, PX); (0%nat, PY); (5%nat, PY)]
   = ([(0%nat, PZ); (2%nat, PY); (5%nat, PY)], zw_opp zw1).
 Proof. vm_compute. reflexivity. Qed.
+
+(* Hermitian conjugate: the operator with conjugated coefficients is the adjoint - <O^dagger f, g> = <f, O g> for all states,
+   with the inner product of any register Q (distinct qubits) containing the qubits of every label *)
+Theorem hermitian_conjugate_is_the_adjoint :
+  forall (K : Type) (phi : K -> C) (kconj : K -> K), (forall x, phi (kconj x) = Cconj (phi x)) ->
+  forall Q (o : op K), NoDup Q -> wf_op K o -> Forall (fun lc => incl (keys (fst lc)) Q) o ->
+  forall f g b0, ip Q (osem K phi (odag K kconj o) f) g b0 = ip Q f (osem K phi o g) b0.
+Proof. exact odag_is_the_adjoint. Qed.
+Print Assumptions hermitian_conjugate_is_the_adjoint.
+
+(* non-vacuity: coefficients in Z[w] with its conjugation; a two-term operator on the register [0; 1; 2] *)
+Example hermitian_conjugate_example :
+  (forall x, zw_eval (zw_conj x) = Cconj (zw_eval x))
+  /\ odag Zw zw_conj [([(0%nat, PX); (2%nat, PY)], zwi); ([(1%nat, PZ)], zw1)]
+     = [([(0%nat, PX); (2%nat, PY)], zw_opp zwi); ([(1%nat, PZ)], zw1)].
+Proof. split; [exact zw_eval_conj|vm_compute; reflexivity]. Qed.
+
+(* matrix export (get_sparse_matrix): the list of one-qubit matrices with the Pauli of qubit `bit` at position n - bit - 1,
+   reduced with scipy's kron, and the coefficient-weighted sum over the terms.  Entry (i, j) is the matrix element of the
+   denoted operator between the basis states i and j (qubit q = bit q of the index) - every register size n >= 1, every
+   operator whose labels act on distinct qubits < n, all indices; over any coefficient ring with an image in C *)
+Theorem matrix_export_is_the_denotation :
+  forall (K : Type) (k0 k1 ki : K) (kopp : K -> K) (kadd kmul : K -> K -> K) (phi : K -> C),
+  phi k0 = C0 -> phi k1 = C1 -> phi ki = Ci -> (forall x, phi (kopp x) = Copp (phi x)) ->
+  (forall x y, phi (kadd x y) = Cadd (phi x) (phi y)) -> (forall x y, phi (kmul x y) = Cmul (phi x) (phi y)) ->
+  forall n (o : op K), 1 <= n -> wf_op K o -> Forall (fun lc => forall q, In q (keys (fst lc)) -> q < n) o ->
+  exists A, export_op K k0 k1 ki kopp kadd kmul n o = Some A
+    /\ forall i j, phi (A i j) = osem K phi o (ket n j) (fun q => bitN i q).
+Proof. exact export_operator_is_matrix_element. Qed.
+Print Assumptions matrix_export_is_the_denotation.
+
+Theorem label_export_is_the_denotation :
+  forall (K : Type) (k0 k1 ki : K) (kopp : K -> K) (kmul : K -> K -> K) (phi : K -> C),
+  phi k0 = C0 -> phi k1 = C1 -> phi ki = Ci -> (forall x, phi (kopp x) = Copp (phi x)) ->
+  (forall x y, phi (kmul x y) = Cmul (phi x) (phi y)) ->
+  forall n l, 1 <= n -> NoDup (keys l) -> (forall q, In q (keys l) -> q < n) ->
+  exists A, export_label K k0 k1 ki kopp kmul n l = Some A
+    /\ forall i j, phi (A i j) = lsemL l (ket n j) (fun q => bitN i q).
+Proof. exact export_label_is_matrix_element. Qed.
+
+(* non-vacuity: Y on qubit 1 of a two-qubit register, entry (row 2, column 0) is i *)
+Example export_example :
+  match export_label Zw zw0 zw1 zwi zw_opp zw_mul 2 [(1%nat, PY)] with
+  | Some A => A 2%N 0%N = zwi /\ A 0%N 2%N = zw_opp zwi /\ A 1%N 0%N = zw0
+  | None => False
+  end.
+Proof. vm_compute. repeat split. Qed.
